@@ -71,6 +71,22 @@ def gen_value(rng: random.Random, tricky: float, depth: int = 0):
     if depth == 0 and rng.random() < 0.01:
         # larger than the default I/O buffer (and not compressible by the run-length layer)
         return "".join(rng.choice(PLAIN) + rng.choice("0123456789") for _ in range(rng.choice([4200, 5000, 9000])))
+    if depth == 0 and rng.random() < 0.012:
+        # big in another direction: a table row (many cells, stretches of blanks), a wide record, a deeply nested one
+        k = rng.random()
+        if k < 0.5:
+            cells = []
+            while len(cells) < rng.choice([64, 70, 100, 130]):
+                cells += [""] * rng.choice([1, 2, 3, 4, 6]) if rng.random() < 0.3 else [rng.choice(["x", "col", "0", "~", "a b", gen_string(rng, tricky)[:12]])]
+            if rng.random() < 0.2:
+                cells[rng.randrange(len(cells))] = rng.choice([0, None, ["x"]])
+            return cells
+        if k < 0.8:
+            return {f"{rng.choice(['k', 'col', ''])}{i}": rng.choice(["", "", "v", i, None, gen_string(rng, tricky)[:8]]) for i in range(rng.choice([64, 150, 400]))}
+        v = gen_string(rng, tricky)[:10]
+        for i in range(rng.choice([30, 60, 120])):
+            v = [v] if (i % 2 or rng.random() < 0.3) else {"n": v}
+        return v
     if depth >= 3 or r < 0.45:
         return gen_string(rng, tricky)
     if r < 0.55:
@@ -184,6 +200,10 @@ def gen_spec(seed: int, config: str | None = None) -> dict:
         if rng.random() < 0.25:
             node["script"].append({"op": "sleep", "ns": rng.choice([0, 1000, 10**6, 10**8, 2 * 10**8, 10**8 + 1, 5 * 10**6])})
         node["script"].append({"op": "send", "to": to, "data": data, "serial": serial})
+        if shape != "bare" and sends_by_node.get(node["name"]) and rng.random() < 0.08:
+            # a follow-up that quotes the id of an earlier packet of the same sender (request/reply correlation, threads
+            # of messages): the id is only known at run time, so the runner puts it in
+            node["script"][-1]["quote_prev"] = rng.choice([1, 1, 2])
         sends_by_node.setdefault(node["name"], []).append(serial)
         serial += 1
     for n in nodes:
@@ -564,6 +584,11 @@ class ConsumerFailed(Exception):
     pass
 
 
+def rng_free_bool(n: int) -> bool:
+    """A choice that depends on the spec only (no PRNG draw at run time)."""
+    return n % 2 == 0
+
+
 def intern_value(x, pool, top=False):
     if isinstance(x, (dict, list)) and x and not top:
         k = ("d" if isinstance(x, dict) else "l") + json.dumps(x, sort_keys=True)
@@ -615,6 +640,7 @@ class NodeRunner:
         self.inc = None
         self.paused = None
         self.send_index = 0
+        self.sent_ids = []
 
     # queue object / incarnation
     def new_queue(self):
@@ -692,9 +718,16 @@ class NodeRunner:
         self.hist.cur_send[name] = st
         self.sim.log("send-invoke", name, op["serial"])
         try:
-            p = self.q.send(to=op["to"], data=self.payload(op["data"]))
+            data = self.payload(op["data"])
+            if op.get("quote_prev") and self.sent_ids:
+                ref = self.sent_ids[-min(op["quote_prev"], len(self.sent_ids))]
+                data = {"s": op["serial"], "id": ref, "re": data} if rng_free_bool(op["serial"]) else {"s": op["serial"], "re": data, "ctx": {"id": ref}}
+                rec["data"] = copy.deepcopy(data)
+                self.sim.probe("packet_quotes_id_of_earlier_packet")
+            p = self.q.send(to=op["to"], data=data)
             rec["acked"] = True
             rec["id"] = p.id
+            self.sent_ids.append(p.id)
         except OSError as e:
             rec["exc"] = f"{type(e).__name__}:{e.errno}"
             if not st["torn"]:
